@@ -722,6 +722,29 @@ impl Check for C14 {
                     }
                 }
             }
+            // section sizes swept so that the fill level of the 8 KiB writer buffers at the
+            // moment a chromosome's section writer is closed takes many values (the last,
+            // partial buffer of every chromosome is pushed out when that writer is dropped)
+            for nsec in 9..=24u32 {
+                for two_pass in [false, true] {
+                    if quick && two_pass && nsec % 3 != 0 {
+                        continue;
+                    }
+                    for nchrom in [1usize, 2] {
+                        let mut o = Opts::base();
+                        o.compress = false;
+                        o.ips = 64;
+                        o.two_pass = two_pass;
+                        o.zoom = Zoom::Manual(vec![]);
+                        for m in &modes {
+                            if matches!(m, C14Mode::Crash) && nsec % 4 != 0 {
+                                continue;
+                            }
+                            v.push(C14Case { bed, nchrom, items: 64 * nsec, opts: o.clone(), mode: m.clone() });
+                        }
+                    }
+                }
+            }
             // refused inputs
             for viol in [
                 Viol::StartsOutOfOrder { ci: 0, p: 0 },
@@ -894,6 +917,9 @@ impl Check for C14 {
                     let sink = Sink::faulting(k, *mode);
                     let r = c14_run_write(c, sink.clone());
                     out.count("fault_runs", 1);
+                    if std::env::var("VH_DEBUG").is_ok() {
+                        eprintln!("k={} of {} injected={} result={:?} same_bytes={}", k, n, sink.faults_injected(), r, sink.bytes() == good);
+                    }
                     if sink.faults_injected() == 0 {
                         out.count("fault_position_not_reached_or_not_applicable", 1);
                         continue;
